@@ -5,6 +5,22 @@ pub uninterp spec fn sp_ctrl(c: char) -> bool;
 pub uninterp spec fn sp_alpha(c: char) -> bool;
 pub uninterp spec fn sp_upper(c: char) -> bool;
 pub uninterp spec fn sp_lower(c: char) -> char;
+pub open spec fn sp_punct(ch: char) -> bool {
+    ch == '&' || ch == '(' || ch == ')' || ch == ',' || ch == ':' || ch == ';' || ch == '.' || ch == '!' || ch == '?'
+    || ch == '-' || ch == '‑' || ch == '‒' || ch == '–' || ch == '—' || ch == '…' || ch == '‼' || ch == '⁇' || ch == '⁈' || ch == '⁉'
+}
+pub open spec fn is_sep(c: char) -> bool { sp_ws(c) || sp_ctrl(c) || sp_punct(c) }
+// ===== assumptions about std's character tables, each CHECKED BY EXHAUSTIVE ENUMERATION of all Unicode scalar values with the
+// real std functions (bin/charfacts; an enumeration, not a verifier): lower-casing (first char of to_lowercase) preserves
+// is_alphanumeric / is_whitespace / is_control / punctuation membership; separators are never alphanumeric.
+// NOT assumed (it is false for 549 code points such as U+2102): that a lower-cased character is not upper-case.
+mod chx {
+    use vstd::prelude::*;
+    use super::*;
+    pub broadcast axiom fn ax_lower_class(c: char)
+        ensures sp_alnum(#[trigger] sp_lower(c)) == sp_alnum(c), sp_ws(sp_lower(c)) == sp_ws(c), sp_ctrl(sp_lower(c)) == sp_ctrl(c), sp_punct(sp_lower(c)) == sp_punct(c);
+    pub broadcast axiom fn ax_sep_not_alnum(c: char) ensures is_sep(c) ==> !#[trigger] sp_alnum(c);
+}
 pub assume_specification[ char::is_alphanumeric ](c: char) -> (r: bool) ensures r == sp_alnum(c);
 pub assume_specification[ char::is_control ](c: char) -> (r: bool) ensures r == sp_ctrl(c);
 pub assume_specification[ char::is_alphabetic ](c: char) -> (r: bool) ensures r == sp_alpha(c);
